@@ -156,6 +156,8 @@ def op_str(o, names=None):
             return "const %r" % o["str"]
         if "promoted" in o:
             return "promoted[%d]" % o["promoted"]
+        if "static" in o:
+            return "&static %s" % o["static"]
         if "uneval" in o:
             return "const{%s}" % o["uneval"]
         return "const ?"
